@@ -258,6 +258,7 @@ class Inliner:
         self.known = known_bare
         self.counter = itertools.count(1)
         self.log = []  # (helper, caller, line)
+        self.skipped = []  # (helper, caller, why not)
         self.helpers = {}  # bare name -> [Helper]
         self.bindings = {m: self._bindings(t, m) for m, t in trees.items()}
         self.classes = {}  # bare class name -> [(modname, ClassDef)]
@@ -548,9 +549,10 @@ class Inliner:
             call, anc, (h, recv) = cand
             try:
                 res = self._inline_call(st, call, anc, h, recv, ctx)
-            except Unsupported:
+            except Unsupported as e_:
                 call._no_inline = True
                 res = None
+                self.skipped.append((h.name, ctx["fq"], str(e_)))
             if res is None:
                 # mark so that resolve skips it next round
                 call._no_inline = True
@@ -569,9 +571,31 @@ class Inliner:
             pre += stmts
         return (pre + [st]) if changed else None
 
+    @staticmethod
+    def _expand_star_args(call, ctx):
+        """f(a, *cols) with `cols` a name bound once in the calling function to a tuple / list display: the explicit arguments"""
+        if not any(isinstance(a, ast.Starred) for a in call.args):
+            return
+        outer = ctx["outer"]
+        new = []
+        for a in call.args:
+            if isinstance(a, ast.Starred) and isinstance(a.value, ast.Name):
+                nm = a.value.id
+                defs = [n.value for n in ast.walk(outer) if isinstance(n, ast.Assign) and len(n.targets) == 1 and isinstance(n.targets[0], ast.Name) and n.targets[0].id == nm]
+                stores = sum(1 for n in ast.walk(outer) if isinstance(n, ast.Name) and n.id == nm and not isinstance(n.ctx, ast.Load))
+                if len(defs) == 1 and stores == 1 and isinstance(defs[0], (ast.Tuple, ast.List)) and not any(isinstance(e, ast.Starred) for e in defs[0].elts):
+                    new += [copy.deepcopy(e) for e in defs[0].elts]
+                    continue
+            elif isinstance(a, ast.Starred) and isinstance(a.value, (ast.Tuple, ast.List)):
+                new += list(a.value.elts)
+                continue
+            new.append(a)
+        call.args = new
+
     def _inline_call(self, st, call, anc, h, recv, ctx):
         if getattr(call, "_no_inline", False):
             return None
+        self._expand_star_args(call, ctx)
         names = ctx["names"]
         if getattr(h, "generator", False):
             # `yield from helper(..)` as a statement: the helper's yields are the caller's yields (a bare `return` ends the delegation only,
